@@ -323,3 +323,53 @@ Example ex_c09_6_outside_the_model :
   hafter None [ (1, ALock); (1, AShared) ] = Some 1 /\
   nth_error c09_6_trace 2 = Some (0, AShared).
 Proof. exact c09_6_not_disciplined. Qed.
+
+(* ==================================================================================================== *)
+(* What dequeue owes the caller after a worker failure (seeded change C09-10: dequeue tested the status
+   before it looked at the done list, so completed items were never handed back).  The search oracles
+   `dequeue-null-with-completed-item-ready` / `dequeue-null-for-item-stored-before-the-call` of
+   props/C09/h_pool.c judge the implementation by exactly these statements. *)
+From SqfsV Require Import C09.PoolNullReady.
+
+Section NullReadyStatements.
+Variable cb_val : nat -> nat.
+Variable cb_st : nat -> Z.
+
+(* NULL is answered only when the pipeline is empty or NO completed item with the next ticket is at the
+   head of the done list (and, at the call itself, safe_done is empty) - for both code versions, whatever
+   the status *)
+Theorem pool_dequeue_null_nothing_ready : forall fx s l s',
+  step cb_val cb_st fx s l = Some (s', ERet ODequeue RNull) ->
+  item_count s = 0 \/ (done_ready s = false /\ (l = LCall ODequeue -> safe_done s = [])).
+Proof. exact (dequeue_null_nothing_ready cb_val cb_st). Qed.
+
+(* no hypothesis on the status: a completed item that is next in submission order is handed back *)
+Theorem pool_dequeue_ready_delivered : forall fx s it r,
+  ms s = MIdle -> item_count s <> 0 ->
+  (safe_done s = it :: r \/ (safe_done s = [] /\ done s = it :: r /\ fst it = next_deq s)) ->
+  exists s', step cb_val cb_st fx s (LCall ODequeue) = Some (s', ERet ODequeue (RItem (snd it))) /\
+             g_ret s' = g_ret s ++ [snd it].
+Proof. exact (dequeue_ready_delivered cb_val cb_st). Qed.
+
+Theorem pool_dequeue_woken_ready_delivered : forall fx s it r,
+  ms s = MDeqWoken -> done s = it :: r -> fst it = next_deq s ->
+  exists s', step cb_val cb_st fx s LMain = Some (s', ERet ODequeue (RItem (snd it))) /\
+             g_ret s' = g_ret s ++ [snd it].
+Proof. exact (dequeue_woken_ready_delivered cb_val cb_st). Qed.
+
+End NullReadyStatements.
+
+Print Assumptions pool_dequeue_null_nothing_ready.
+Print Assumptions pool_dequeue_ready_delivered.
+Print Assumptions pool_dequeue_woken_ready_delivered.
+
+(* non-vacuity: failed pool (status 5), ticket 0 completed in the done list, ticket 1 still queued and never
+   going to run: the first dequeue hands ticket 0 back, the second answers NULL *)
+Example ex_pool_failed_ready_delivers :
+  done_ready ex_failed_ready = true /\
+  option_map snd (step (fun d => d + 100) (fun _ => 0%Z) true ex_failed_ready (LCall ODequeue)) =
+    Some (ERet ODequeue (RItem 110)) /\
+  (match step (fun d => d + 100) (fun _ => 0%Z) true ex_failed_ready (LCall ODequeue) with
+   | Some (s1, _) => option_map snd (step (fun d => d + 100) (fun _ => 0%Z) true s1 (LCall ODequeue))
+   | None => None end) = Some (ERet ODequeue RNull).
+Proof. exact ex_failed_ready_delivers. Qed.
